@@ -388,6 +388,12 @@ pub fn gen_schema(t: &mut Tape, cfg: &GenCfg) -> Schema {
             if one_of {
                 nonnull[0] = false; // @oneOf members are nullable by definition
             }
+            let named = if one_of && fields.is_empty() && matches!(named, Named::Input(_)) && depth == 0 {
+                // every @oneOf input needs a member that terminates (else no finite value exists)
+                Named::String
+            } else {
+                named
+            };
             // both the snake_case (struct field) and UpperCamel (@oneOf variant) images are unique
             let mut name;
             loop {
